@@ -224,7 +224,7 @@ impl Campaign for C11c {
         "C11"
     }
     fn rule(&self) -> &'static str {
-        "seeded scenarios: pipelines of 2..8 requests with bodies from {none, 1, 1024, 1025, 5000, chunked small, chunked large}; (A) all bodies absent or <= 1024 bytes and the application collects all n requests before answering any (one thread calling recv, one blocked thread per request, or one thread polling with try_recv around 0-2 unblock calls); (B) a streamed body is read to its end (or the request answered/dropped unread) and the request kept for 1 virtual second while the successor must already be obtainable; non-trivial = (A) n >= 3 or a 1024-byte body present, (B) always; distinct = interleaving fingerprint"
+        "seeded scenarios: pipelines of 2..8 requests with bodies from {none, 1, 1024, 1025, 5000, chunked small, chunked large}; (A) all bodies absent or <= 1024 bytes and the application collects all n requests before answering any (one thread calling recv, one blocked thread per request, or one thread polling with try_recv around 0-2 unblock calls); (B) a streamed body is read to its end (or the request answered/dropped unread, also by a panicking handler) and the request kept for 1 virtual second while the successor must already be obtainable; non-trivial = (A) n >= 3 or a 1024-byte body present, (B) always; distinct = interleaving fingerprint"
     }
     fn runs(&self, tier: Tier) -> u64 {
         match tier {
@@ -250,8 +250,9 @@ impl Campaign for C11c {
                 let len = if chunked { *g.pick(&[5usize, 3000, 20000]) } else { *g.pick(&[1025usize, 5000, 20000]) };
                 let (rq, _) = body_request(&mut g, &id, len, chunked);
                 msgs.push(rq.bytes());
-                let mode = g.below(3);
+                let mode = g.below(4);
                 let p = match mode {
+                    3 => Program { delay: 0, after: vec![], body: BodyPlan::None, delay2: 0, finish: Finish::Panic },
                     0 => Program { delay: 0, after: vec![], body: BodyPlan::ToEof { buf: *g.pick(&[1usize, 100, 4096]) }, delay2: SEC, finish: Finish::Respond(RespSpec::simple(200, token_body(&id, 10))) },
                     1 => Program { delay: 0, after: vec![], body: BodyPlan::None, delay2: 0, finish: Finish::Respond(RespSpec::simple(200, token_body(&id, 10))) },
                     _ => Program { delay: 0, after: vec![], body: BodyPlan::None, delay2: 0, finish: Finish::Drop },
